@@ -1,4 +1,4 @@
-CONSTANTS NodeId = 5  HbInit = 2  Walk = TRUE  WalkLen = 40  EvCap = 3
+CONSTANTS NodeId = 5  HbInit = 2  Walk = TRUE  WalkLen = 40  EvCap = 3  PoolN = 16
 CONSTANT Letters <- L10  HcInit <- HC10  ProbeLetters <- P10
 INIT Init
 NEXT Next
